@@ -10,6 +10,8 @@ import (
 	"fmt"
 	"io"
 	"reflect"
+	"runtime/debug"
+	"strings"
 	"sync"
 	"time"
 
@@ -137,7 +139,7 @@ func faultHook(muts []mutation, donor *recorded, custom customMut, ap *applied) 
 			if dirOf(mu.Dir) != m.Dir || mu.Msg != m.Index {
 				continue
 			}
-			if m.Synthetic && mu.Op != "lenient" && mu.Op != "forge-sig" {
+			if m.Synthetic && !strings.HasPrefix(mu.Op, "lenient") && mu.Op != "forge-sig" {
 				continue // only a host that invents its answer can fill a message the server never sent
 			}
 			if !touched {
@@ -337,6 +339,7 @@ type outcome struct {
 	Res      any
 	Err      error
 	Panic    any
+	Stack    string // where the client panicked
 	Hung     bool
 	Duration time.Duration
 }
@@ -350,7 +353,15 @@ func monitoredCall(deadline time.Duration, fn func(ctx context.Context) (any, er
 	start := time.Now()
 	go func() {
 		var o outcome
-		o.Panic = mon.Guard(func() { o.Res, o.Err = fn(ctx) })
+		func() {
+			defer func() {
+				if p := recover(); p != nil {
+					o.Panic = p
+					o.Stack = trimStack(debug.Stack())
+				}
+			}()
+			o.Res, o.Err = fn(ctx)
+		}()
 		o.Duration = time.Since(start)
 		done <- o
 	}()
@@ -360,6 +371,18 @@ func monitoredCall(deadline time.Duration, fn func(ctx context.Context) (any, er
 	case <-time.After(deadline + hangSlack):
 		return outcome{Hung: true, Duration: time.Since(start)}
 	}
+}
+
+// trimStack keeps the frames between the panic and the monitored call.
+func trimStack(b []byte) string {
+	lines := strings.Split(string(b), "\n")
+	var out []string
+	for i := 0; i+1 < len(lines) && len(out) < 24; i++ {
+		if strings.HasPrefix(lines[i], "go.sia.tech/") || strings.HasPrefix(lines[i], "panic(") {
+			out = append(out, lines[i], strings.TrimSpace(lines[i+1]))
+		}
+	}
+	return strings.Join(out, "\n")
 }
 
 func isDeadline(err error) bool {
